@@ -55,13 +55,13 @@ func ruleGlobals(prog *Program, rep *Report) {
 			write bool
 		}
 		type finfo struct {
-			fd       *ast.FuncDecl
-			acc      []access
-			lockPos  token.Pos // position of a top-level M.Lock()
-			deferUn  token.Pos
-			plainUn  token.Pos
-			calls    map[*types.Func][]token.Pos
-			isInit   bool
+			fd      *ast.FuncDecl
+			acc     []access
+			lockPos token.Pos // position of a top-level M.Lock()
+			deferUn token.Pos
+			plainUn token.Pos
+			calls   map[*types.Func][]token.Pos
+			isInit  bool
 		}
 		funcs := map[*types.Func]*finfo{}
 		var order []*types.Func
